@@ -8,7 +8,8 @@ ASSUMPTIONS = [
     "callbacks cancel/reset only pending cookies (a fired or cancelled cookie is dead memory by contract)",
     "trusted: clang 14 + ASan/UBSan, rapidcheck, the monitor in props/C04/core.cpp",
 ]
-SUBS = [dict(name="c05", fork=True, quick=dict(cases=2500, shards=16), thorough=dict(cases=25000, shards=16))]
+SUBS = [dict(name="c05", fork=True, quick=dict(cases=2500, shards=14), thorough=dict(cases=25000, shards=16)),
+        dict(name="c05spin", fork=True, quick=dict(cases=4, shards=2), thorough=dict(cases=60, shards=8))]
 
 
 def build(B):
